@@ -32,9 +32,9 @@ def eval_monad_char(a, backend):
                   :#10  -->  :"newline character"
 
     """
-    if is_empty(a):
-        return a
-    return backend.rec_fn(a, lambda x: KGChar(chr(x))) if is_list(a) else KGChar(chr(a))
+    def _chr(x):
+        return x if is_empty(x) else KGChar(chr(x))
+    return backend.rec_fn(a, _chr) if is_list(a) else _chr(a)
 
 
 def eval_monad_enumerate(a, backend):
